@@ -32,16 +32,31 @@ def contender(path, rounds, idx, out_path, hows, until=None, timed=(0.05, 0.002)
     keep = []
     r = -1
     left = rounds
+    interrupts = 0
     t_end = time.monotonic() + HANG_GUARD_S
     while left > 0:
         r += 1
         if until is None or os.path.exists(until) or time.monotonic() > t_end:
             left -= 1
         how = hows[(idx + r) % len(hows)]
+        if until is not None and r % 5 == 4 and not os.path.exists(until):
+            how = 'interrupted'     # only while the victim is around; 5 is coprime to len(hows): every kind still occurs
         t0 = time.monotonic()
         cm = None
         if how == 'acquire':
             ok = lock.acquire()
+        elif how == 'interrupted':
+            # a blocking acquire cut short by a raising signal handler (Ctrl-C, a watchdog alarm) while it waits for
+            # the holder, then the ordinary retry on the same object. Injected at the flock layer so that it is
+            # deterministic: the exception leaves flock() only when flock() would have had to wait.
+            was = _interrupted_acquire(lock)
+            if was:
+                interrupts += 1
+                if lock.is_locked:  # nothing was acquired, yet this object says it holds the lock
+                    inconsistent += 1
+                ok = lock.acquire()
+            else:
+                ok = True
         elif how == 'nb':
             ok = lock.acquire(blocking=False)
         elif how == 'timed':
@@ -88,7 +103,40 @@ def contender(path, rounds, idx, out_path, hows, until=None, timed=(0.05, 0.002)
         if lock.is_locked:          # (this process never nests) released, yet the object still says it holds the lock
             inconsistent += 1
     with open(out_path, 'w') as f:
-        json.dump({'done': done, 'clashes': clashes, 'waited': waited, 'inconsistent': inconsistent, 'rounds': r + 1}, f)
+        json.dump({'done': done, 'clashes': clashes, 'waited': waited, 'inconsistent': inconsistent, 'rounds': r + 1,
+                   'interrupts': interrupts}, f)
+
+
+def _interrupted_acquire(lock):
+    """lock.acquire() during which a blocking flock() that would have to wait is left by a KeyboardInterrupt instead
+    (what a raising signal handler does to a waiting flock(): no lock taken, a non-OSError propagates).
+    -> True when the attempt was interrupted (nothing acquired), False when it acquired without waiting."""
+    import aiuti.filelock as F
+    import logging
+    real = F.fcntl
+    lg = logging.getLogger(F.__name__)
+    if not lg.handlers:
+        lg.addHandler(logging.NullHandler())     # acquire() logs the traceback of whatever passes through it
+
+    class Proxy:
+        def __getattr__(self, n):
+            return getattr(real, n)
+
+        def flock(self, fd, flags):
+            if flags & real.LOCK_EX and not flags & real.LOCK_NB:
+                try:
+                    return real.flock(fd, flags | real.LOCK_NB)
+                except BlockingIOError:
+                    raise KeyboardInterrupt from None
+            return real.flock(fd, flags)
+    F.fcntl = Proxy()
+    try:
+        lock.acquire()
+        return False
+    except KeyboardInterrupt:
+        return True
+    finally:
+        F.fcntl = real
 
 
 def run_contention(nprocs, rounds, hows):
